@@ -348,3 +348,235 @@ Proof.
     destruct Hin as [E0|[]]. inversion E0; subst. exists t'. split; [reflexivity|exact St].
 Qed.
 End RT2.
+
+(* ------------------------------------------------------------------ *)
+(* linear paths: get_path / from_path(path=...) keep the live ids (ssas) and the live nodes
+   as two parallel lists -- the keys and the values of the ssa variant's map *)
+Lemma map_pop_nth {A B} (f : A -> B) k : forall l, map f (pop_nth k l) = pop_nth k (map f l).
+Proof. induction k as [|k IH]; intros [|x l]; cbn [pop_nth map]; try reflexivity. rewrite IH. reflexivity. Qed.
+
+Lemma sm_del_is_pop (m : smap) : forall ia a d, NoDup (map fst m) -> ia < length m ->
+  fst (nth ia m d) = a -> sm_del a m = pop_nth ia m.
+Proof.
+  induction m as [|[k v] m IH]; intros ia a d Hnd Hia Ha; cbn [length] in Hia; [lia|].
+  cbn [map fst] in Hnd. inversion Hnd as [|? ? Hn Hnd']; subst.
+  unfold sm_del. cbn [filter fst]. fold (sm_del (fst (nth ia ((k, v) :: m) d)) m).
+  destruct ia as [|ia]; cbn [nth fst pop_nth].
+  - rewrite Nat.eqb_refl. cbn [negb]. apply sm_del_absent, Hn.
+  - destruct (Nat.eqb_spec k (fst (nth ia m d))) as [E0|_]; cbn [negb].
+    + exfalso. apply Hn. rewrite E0. apply in_map, nth_In. lia.
+    + f_equal. apply (IH ia _ d Hnd'); [lia|reflexivity].
+Qed.
+
+Lemma sm_get_nth (m : smap) ia a d : NoDup (map fst m) -> ia < length m -> fst (nth ia m d) = a ->
+  sm_get a m = snd (nth ia m d).
+Proof.
+  intros Hnd Hia Ha. apply sm_get_in; [exact Hnd|]. rewrite <- Ha, <- surjective_pairing. apply nth_In, Hia.
+Qed.
+
+Lemma sm_del_two_pops (m : smap) ia ib ka kb d : NoDup (map fst m) -> ia < ib -> ib < length m ->
+  fst (nth ia m d) = ka -> fst (nth ib m d) = kb ->
+  sm_del kb (sm_del ka m) = pop_nth ia (pop_nth ib m).
+Proof.
+  intros Hnd Hlt Hib Ha Hb. rewrite sm_del_comm. rewrite (sm_del_is_pop m ib kb d Hnd Hib Hb).
+  apply (sm_del_is_pop _ ia ka d).
+  - rewrite map_pop_nth. apply NoDup_pop_nth, Hnd.
+  - rewrite length_pop_nth by exact Hib. lia.
+  - rewrite nth_pop_nth. destruct (Nat.ltb_spec ia ib); [exact Ha|lia].
+Qed.
+
+Lemma sort_desc_pair i j : i < j -> sort_desc [i; j] = [j; i].
+Proof.
+  intros H. unfold sort_desc, sort_asc, sort_by. cbn [fold_left insert_by].
+  destruct (Nat.leb_spec i j); [reflexivity|lia].
+Qed.
+
+Lemma from_path_step_pair (lnodes : list tree) i j : i < j ->
+  from_path_step (Some lnodes) [i; j] =
+  Some (pop_nth i (pop_nth j lnodes) ++ [mk_pair (nth j lnodes (Leaf 0)) (nth i lnodes (Leaf 0))]).
+Proof.
+  intros H. unfold from_path_step. rewrite (sort_desc_pair i j H). cbn [fold_left fst snd app contract_nodes].
+  rewrite nth_pop_nth. destruct (Nat.ltb_spec i j); [reflexivity|lia].
+Qed.
+
+Section RT3.
+Variable N : nat.
+Variable t : tree.
+Hypothesis ND : NoDup (leaves t).
+Hypothesis HL : forall k, In k (leaves t) -> k < N.
+
+Definition lin_init : option (list tree) := Some (map Leaf (seq 0 N)).
+Definition d0 : nat * tree := (0, Leaf 0).
+
+Lemma lin_loop rest : forall done pos acc nodes,
+  Inv N t done pos nodes -> strictly_increasing (map fst nodes) -> length acc = length done ->
+  fold_left from_path_step (map pl acc) lin_init = Some (map snd nodes) ->
+  ok_order t (done ++ rest) ->
+  exists pos' acc' nodes',
+    fold_left path_step rest (pos, map fst nodes, N + length done, acc)
+      = (pos', map fst nodes', N + length (done ++ rest), acc') /\
+    fold_left from_path_step (map pl acc') lin_init = Some (map snd nodes') /\
+    Inv N t (done ++ rest) pos' nodes'.
+Proof.
+  induction rest as [|p rest IH]; intros done pos acc nodes I Hsi Hlen Hrun Hok.
+  - exists pos, acc, nodes. rewrite app_nil_r. auto.
+  - destruct Hok as (Hnd & Hin & Hcf).
+    assert (Hp : In p (post_sub t)) by (apply Hin, in_or_app; right; left; reflexivity).
+    assert (Hpn : ~ In p done).
+    { intros H. apply NoDup_remove_2 in Hnd. apply Hnd, in_or_app. left; exact H. }
+    assert (Hdone : forall q, In q done -> In q (post_sub t)) by (intros q Hq; apply Hin, in_or_app; left; exact Hq).
+    destruct p as [k|l r]; [apply E.post_sub_iff in Hp; destruct Hp as [_ []]|].
+    set (ka := nm_get l pos). set (kb := nm_get r pos).
+    set (ssas := map fst nodes) in *.
+    set (ia := bisect_left ssas ka). set (ib := bisect_left ssas kb).
+    set (i := Nat.min ia ib). set (j := Nat.max ia ib).
+    set (t' := mk_pair (snd (nth j nodes d0)) (snd (nth i nodes d0))).
+    (* what inv_step needs: t' in terms of sm_get; first get presence of the two keys *)
+    pose proof (inv_nd _ _ _ _ _ I) as Hndk.
+    assert (Hpres : forall q, E.child q (Node l r) -> exists x, In (nm_get q pos, x) nodes).
+    { intros q Hq.
+      destruct (inv_step N t ND done pos nodes l r (mk_pair (sm_get ka nodes) (sm_get kb nodes)) I Hp Hpn Hdone
+                  (Hcf done (Node l r) rest eq_refl) (or_introl eq_refl)) as (_ & Hx & Hy & _).
+      destruct Hq as [-> | ->]; assumption. }
+    destruct (Hpres l (or_introl eq_refl)) as (x & Hx). destruct (Hpres r (or_intror eq_refl)) as (y & Hy).
+    fold ka in Hx. fold kb in Hy.
+    assert (Hka : In ka ssas) by (apply in_map_iff; exists (ka, x); auto).
+    assert (Hkb : In kb ssas) by (apply in_map_iff; exists (kb, y); auto).
+    destruct (bisect_present ssas ka Hsi Hka) as [Hia Hna]. destruct (bisect_present ssas kb Hsi Hkb) as [Hib Hnb].
+    fold ia in Hia, Hna. fold ib in Hib, Hnb. unfold ssas in Hia, Hib. rewrite map_length in Hia, Hib.
+    assert (Hfa : fst (nth ia nodes d0) = ka) by (rewrite <- Hna; unfold ssas; rewrite <- (map_nth fst nodes d0 ia); reflexivity).
+    assert (Hfb : fst (nth ib nodes d0) = kb) by (rewrite <- Hnb; unfold ssas; rewrite <- (map_nth fst nodes d0 ib); reflexivity).
+    assert (Ega : sm_get ka nodes = snd (nth ia nodes d0)) by (apply sm_get_nth; assumption).
+    assert (Egb : sm_get kb nodes = snd (nth ib nodes d0)) by (apply sm_get_nth; assumption).
+    assert (Ht' : t' = mk_pair (sm_get ka nodes) (sm_get kb nodes) \/ t' = mk_pair (sm_get kb nodes) (sm_get ka nodes)).
+    { unfold t', i, j. rewrite Ega, Egb. destruct (Nat.le_ge_cases ia ib) as [H|H].
+      - rewrite Nat.min_l, Nat.max_r by exact H. right; reflexivity.
+      - rewrite Nat.min_r, Nat.max_l by exact H. left; reflexivity. }
+    destruct (inv_step N t ND done pos nodes l r t' I Hp Hpn Hdone (Hcf done (Node l r) rest eq_refl) Ht')
+      as (Hab & _ & _ & I').
+    fold ka kb in Hab, I'.
+    assert (Hiab : ia <> ib) by (intros E0; apply Hab; rewrite <- Hfa, <- Hfb, E0; reflexivity).
+    assert (Hij : i < j) by (unfold i, j; lia).
+    assert (Hjl : j < length nodes) by (unfold j; lia).
+    assert (Hdel : sm_del kb (sm_del ka nodes) = pop_nth i (pop_nth j nodes)).
+    { unfold i, j. destruct (Nat.lt_ge_cases ia ib) as [H|H].
+      - rewrite Nat.min_l, Nat.max_r by lia. apply (sm_del_two_pops nodes ia ib ka kb d0); assumption.
+      - rewrite Nat.min_r, Nat.max_l by lia. rewrite sm_del_comm.
+        apply (sm_del_two_pops nodes ib ia kb ka d0); try assumption. lia. }
+    rewrite Hdel in I'.
+    set (nodes2 := pop_nth i (pop_nth j nodes) ++ [(N + length done, t')]) in *.
+    assert (Hsi2 : strictly_increasing (map fst nodes2)).
+    { unfold nodes2. rewrite map_app, !map_pop_nth. cbn [map fst]. fold ssas.
+      assert (Hl1 : length (pop_nth j ssas) = length ssas - 1) by (apply length_pop_nth; unfold ssas; rewrite map_length; exact Hjl).
+      apply app_fresh_strictly_increasing.
+      - apply pop_strictly_increasing; [apply pop_strictly_increasing; [exact Hsi|unfold ssas; rewrite map_length; exact Hjl]|].
+        rewrite Hl1. unfold ssas. rewrite map_length. lia.
+      - intros k Hk. set (L := pop_nth i (pop_nth j ssas)) in *.
+        assert (HinL : In (nth k L 0) L) by (apply nth_In, Hk).
+        apply in_pop_nth_incl, in_pop_nth_incl in HinL. unfold ssas in HinL. apply in_map_iff in HinL.
+        destruct HinL as ([k0 v0] & E0 & Hin0). cbn [fst] in E0. rewrite <- E0.
+        apply (inv_keys _ _ _ _ _ I k0 v0 Hin0). }
+    cbn [fold_left]. unfold path_step at 2. fold ka kb. fold ia ib. fold i j.
+    destruct (IH (done ++ [Node l r]) ((Node l r, N + length done) :: pos) (acc ++ [(i, j)]) nodes2 I' Hsi2)
+      as (pos' & acc' & nodes' & H1 & H2 & H3).
+    + rewrite !app_length. cbn [length]. lia.
+    + rewrite map_app, fold_left_app, Hrun. cbn [map fold_left]. unfold pl. cbn [fst snd].
+      rewrite from_path_step_pair by exact Hij. unfold nodes2. rewrite map_app, !map_pop_nth. cbn [map snd].
+      unfold t'. rewrite <- !(map_nth snd nodes d0). reflexivity.
+    + rewrite <- app_assoc. cbn [app]. repeat split; assumption.
+    + exists pos', acc', nodes'. rewrite <- app_assoc in H1, H3. cbn [app] in H1, H3.
+      split; [|split; assumption]. rewrite <- H1. f_equal. unfold nodes2.
+      rewrite map_app, !map_pop_nth. cbn [map fst]. fold ssas.
+      rewrite app_length. cbn [length]. repeat f_equal. lia.
+Qed.
+
+(* get_path_roundtrip, for every admissible order *)
+Theorem lin_roundtrip trav : N = nleaves t -> ok_order t trav -> Permutation trav (post_sub t) ->
+  exists t', from_path N (map pl (get_path N trav)) = Some [t'] /\ sim t t'.
+Proof.
+  intros HN Hok HP.
+  set (nodes0 := map (fun i => (i, Leaf i)) (seq 0 N)).
+  assert (Hk0 : map fst nodes0 = seq 0 N) by (unfold nodes0; rewrite map_map; cbn [fst]; apply map_id).
+  assert (Hv0 : map snd nodes0 = map Leaf (seq 0 N)) by (unfold nodes0; rewrite map_map; reflexivity).
+  destruct (lin_loop trav [] (leaf_map N) [] nodes0 (inv_init N t HL)) as (pos' & acc' & nodes' & H1 & H2 & I).
+  - rewrite Hk0. apply seq_strictly_increasing.
+  - reflexivity.
+  - cbn. rewrite Hv0. reflexivity.
+  - exact Hok.
+  - cbn [app length] in *. rewrite Nat.add_0_r, Hk0 in H1. unfold get_path. rewrite H1. cbn [snd].
+    unfold from_path. fold lin_init. rewrite H2.
+    assert (Hlen : length nodes' = 1).
+    { pose proof (inv_len _ _ _ _ _ I) as L. rewrite (Permutation_length HP), post_sub_length in L.
+      pose proof (count_internal_nleaves t). lia. }
+    assert (Hav : avail t trav t).
+    { destruct t as [i|l r] eqn:Et; [left; exists i; split; [reflexivity|left; reflexivity]|].
+      right. eapply Permutation_in; [symmetry; exact HP|]. cbn [post_sub]. rewrite !in_app_iff. right; right; left; reflexivity. }
+    assert (Hun : ~ consumed trav t).
+    { intros (p & Hp & Hc). pose proof (E.child_nleaves _ _ Hc) as Hlt.
+      assert (Hps : In p (E.subs t)).
+      { apply (Permutation_in _ HP) in Hp. apply E.post_sub_iff in Hp. apply Hp. }
+      pose proof (E.subs_nleaves t p Hps). lia. }
+    destruct (inv_val _ _ _ _ _ I t Hav Hun) as (t' & Hin & St).
+    destruct nodes' as [|[k v] [|? ?]]; cbn [length] in Hlen; try lia.
+    destruct Hin as [E0|[]]. inversion E0; subst. exists t'. split; [reflexivity|exact St].
+Qed.
+End RT3.
+
+(* ------------------------------------------------------------------ *)
+(* instances: the dfs order, and any order that is valid in the sense of C01's ExecOrderFacts *)
+Lemma dfs_ok_order t : NoDup (leaves t) -> ok_order t (post_sub t).
+Proof.
+  intros ND. split; [apply E.NoDup_post_sub, ND|]. split; [auto|].
+  intros pre p suf E0 q Hq.
+  destruct (E.cfirst_split (post_sub t) [] (E.cfirst_post_sub t []) pre p suf E0 q Hq) as [H|[[]|H]]; auto.
+Qed.
+
+Lemma valid_order_ok t order : NoDup (leaves t) -> E.valid_order t order ->
+  ok_order t (map snd order) /\ Permutation (map snd order) (post_sub t).
+Proof.
+  intros ND (HP & _ & Hcf). split; [|exact HP]. split; [|split].
+  - eapply Permutation_NoDup; [symmetry; exact HP|apply E.NoDup_post_sub, ND].
+  - intros p Hp. eapply Permutation_in; [exact HP|exact Hp].
+  - intros pre p suf E0 q Hq. apply map_eq_app in E0. destruct E0 as (o1 & o2 & -> & <- & E2).
+    apply map_eq_cons in E2. destruct E2 as ([b p'] & o3 & -> & E3 & _). cbn [snd] in E3. subst p'.
+    apply (Hcf o1 b p o3 eq_refl q Hq).
+Qed.
+
+Definition full_leaves (N : nat) (t : tree) : Prop :=
+  NoDup (leaves t) /\ (forall k, In k (leaves t) -> k < N) /\ N = nleaves t.
+
+Theorem get_ssa_path_roundtrip N t trav : full_leaves N t -> ok_order t trav -> Permutation trav (post_sub t) ->
+  exists t', from_ssa_path N (map pl (get_ssa_path N trav)) = Some [t'] /\ sim t t' /\
+             Permutation (map node_set (post_sub t)) (map node_set (post_sub t')).
+Proof.
+  intros (ND & HL & HN) Hok HP. destruct (ssa_roundtrip N t ND HL trav HN Hok HP) as (t' & H1 & H2).
+  exists t'. repeat split; try assumption. apply sim_node_sets; assumption.
+Qed.
+
+Theorem get_path_roundtrip N t trav : full_leaves N t -> ok_order t trav -> Permutation trav (post_sub t) ->
+  exists t', from_path N (map pl (get_path N trav)) = Some [t'] /\ sim t t' /\
+             Permutation (map node_set (post_sub t)) (map node_set (post_sub t')).
+Proof.
+  intros (ND & HL & HN) Hok HP. destruct (lin_roundtrip N t ND HL trav HN Hok HP) as (t' & H1 & H2).
+  exists t'. repeat split; try assumption. apply sim_node_sets; assumption.
+Qed.
+
+Corollary get_ssa_path_roundtrip_dfs N t : full_leaves N t ->
+  exists t', from_ssa_path N (map pl (get_ssa_path N (post_sub t))) = Some [t'] /\ sim t t' /\
+             Permutation (map node_set (post_sub t)) (map node_set (post_sub t')).
+Proof. intros H. apply get_ssa_path_roundtrip; [exact H|apply dfs_ok_order, H|reflexivity]. Qed.
+
+Corollary get_path_roundtrip_dfs N t : full_leaves N t ->
+  exists t', from_path N (map pl (get_path N (post_sub t))) = Some [t'] /\ sim t t' /\
+             Permutation (map node_set (post_sub t)) (map node_set (post_sub t')).
+Proof. intros H. apply get_path_roundtrip; [exact H|apply dfs_ok_order, H|reflexivity]. Qed.
+
+Corollary roundtrips_valid_order N t order : full_leaves N t -> E.valid_order t order ->
+  (exists t', from_path N (map pl (get_path N (map snd order))) = Some [t'] /\ sim t t' /\
+              Permutation (map node_set (post_sub t)) (map node_set (post_sub t'))) /\
+  (exists t', from_ssa_path N (map pl (get_ssa_path N (map snd order))) = Some [t'] /\ sim t t' /\
+              Permutation (map node_set (post_sub t)) (map node_set (post_sub t'))).
+Proof.
+  intros H Hv. destruct (valid_order_ok t order (proj1 H) Hv) as [Hok HP].
+  split; [apply get_path_roundtrip|apply get_ssa_path_roundtrip]; assumption.
+Qed.
